@@ -124,6 +124,25 @@ def check(case):
                     return
                 g.line(name).name = new
                 str(g); g.validate()
+            elif op == "refused-then":
+                # a call that is refused (gfapy error), then further calls on the same objects: still only gfapy errors
+                name, new, then = arg
+                l = g.line(name)
+                if l is None:
+                    return
+                try:
+                    l.name = new
+                except gfapy.Error:
+                    pass
+                if then == "rename":
+                    l.name = "Fresh9"
+                elif then == "disconnect":
+                    l.disconnect()
+                elif then == "rm":
+                    g.rm(l)
+                elif then == "set":
+                    l.set("zz", 1)
+                str(g)
         attempt("api-" + op, f, fails, c)
         return dict(key=("api", version, tuple(ids), op, repr(arg)), nontrivial=True, failures=fails, sample=dict(op=op, arg=arg))
 
@@ -212,6 +231,9 @@ def cases(tier, seed):
                     for op in ("line", "segment", "rm"):
                         out.append(("api", version, ids, op, n, vlevel))
                     out.append(("api", version, ids, "rename", (rng.choice(["A", "B"]), n), vlevel))
+                    for target in ("A", "p1", "e1", "o1", "u1", "g1", "lk"):
+                        for then in ("rename", "disconnect", "rm", "set"):
+                            out.append(("api", version, ids, "refused-then", (target, n, then), vlevel))
                 combos = [(n, f, v) for n in ("A", "B", "p1", "e1", "g1", "u1", "o1", "lk") for f in fields for v in values]
                 for (n, f, v) in (combos if tier != "quick" else rng.sample(combos, 300)):
                     out.append(("api", version, ids, "set", (n, f, v), vlevel))
